@@ -521,7 +521,19 @@ inductive Ctx where
   | plainThread
   | tokioMultiThread
   | tokioCurrentThread
+  | tokioMultiThreadNoDrivers          -- worker of a multi-thread runtime built without time / io drivers
+  | tokioMultiThreadNoDriversBlockOn   -- inside `block_on` of such a runtime (runtime context, not a worker)
+  | tokioCurrentThreadNoDrivers        -- current-thread runtime built without drivers
   deriving Repr, DecidableEq
+
+/-- The runtime of the calling context has a time driver (`enable_time` / `enable_all`). -/
+def Ctx.hasTimeDriver : Ctx → Bool
+  | .tokioMultiThread | .tokioCurrentThread => true
+  | _ => false
+
+def Ctx.isCurrentThread : Ctx → Bool
+  | .tokioCurrentThread | .tokioCurrentThreadNoDrivers => true
+  | _ => false
 
 /-- Which module's blocking entry points are called. -/
 inductive Api where
@@ -535,6 +547,8 @@ inductive BlockingPath where
   | condvar          -- `sync::blocking_*` on the calling thread (condvar + `Trigger::wait_timeout`)
   | blockInPlace     -- the same inside `tokio::task::block_in_place` (worker of a multi-thread runtime)
   | handleBlockOn    -- `Handle::block_on` from a thread that drives a runtime: tokio panics
+  | blockInPlaceAsync  -- `block_in_place(|| handle.block_on(<async variant>))`: waits with `tokio::time::timeout`,
+                       -- which panics ("timers are disabled") on a runtime built without a time driver
   deriving Repr, DecidableEq
 
 /-- `tokio::block_in_place_if_possible` (tokio.rs, after fix D3): `Handle::try_current()` succeeds inside both
@@ -546,17 +560,21 @@ def blockingPath : Api → Ctx → BlockingPath
   | .async, _ => .condvar   -- not blocking: awaited (listed so that the table is total; never panics)
   | .tokio, .plainThread => .condvar
   | .tokio, .tokioMultiThread => .blockInPlace
+  | .tokio, .tokioMultiThreadNoDrivers => .blockInPlace
+  | .tokio, .tokioMultiThreadNoDriversBlockOn => .blockInPlace
   | .tokio, .tokioCurrentThread => .condvar
+  | .tokio, .tokioCurrentThreadNoDrivers => .condvar
 
 /-- tokio's documented behaviour (parameter table, trusted): `block_in_place` is legal on a multi-thread worker
     and panics on a current-thread runtime; `Handle::block_on` panics on any thread that is driving a runtime;
-    a condvar wait is legal anywhere. -/
+    a condvar wait is legal anywhere and needs no runtime driver; `tokio::time::timeout` needs the time driver. -/
 def pathPanics : BlockingPath → Ctx → Bool
   | .condvar, _ => false
-  | .blockInPlace, .tokioCurrentThread => true
-  | .blockInPlace, _ => false
+  | .blockInPlace, ctx => ctx.isCurrentThread
   | .handleBlockOn, .plainThread => false
   | .handleBlockOn, _ => true
+  | .blockInPlaceAsync, .plainThread => false
+  | .blockInPlaceAsync, ctx => ctx.isCurrentThread || !ctx.hasTimeDriver   -- a call that has to wait
 
 /-- Receiver the blocking call runs against (stream `batcher_blocking`). -/
 inductive RxKind where
